@@ -218,7 +218,7 @@ def drive(rec, ms, quick):
 
 
 def drive_tables(rec, tabs):
-    """advisory: real reim and cplx forward tables against the tables generated from the schedule"""
+    """advisory: real reim and cplx, forward and inverse tables against the tables generated from the schedules"""
     try:
         import mpmath
         mpmath.mp.prec = 120
@@ -232,7 +232,7 @@ def drive_tables(rec, tabs):
     import ctypes
     for tb in tabs:
         m = tb["m"]
-        t = tables.get("new_%s_fft_precomp" % tb.get("layout", "reim"), m, MASK_NONE, ("w", 0))
+        t = tables.get("new_%s_%s_precomp" % (tb.get("layout", "reim"), "ifft" if tb.get("inverse") else "fft"), m, MASK_NONE, ("w", 0))
         # powomegas pointer is the 4th 8-byte field: function, m, buf_size, powomegas (see reim_fft_private.h); read through the struct
         ptr = ctypes.cast(t + 24, ctypes.POINTER(ctypes.c_void_p))[0]
         real = np.ctypeslib.as_array(ctypes.cast(ptr, ctypes.POINTER(ctypes.c_double)), shape=(len(tb["table"]),)).copy()
@@ -243,7 +243,7 @@ def drive_tables(rec, tabs):
             checked += 1
             # the library evaluates cos/sin of a double-rounded argument 2 pi s (s <= 1): absolute error of a few 2^-53
             if abs(got - exact) > 8 * mpmath.mpf(2) ** -53:
-                drift.append(tb.get("layout", "reim") + " m=%d entry %d: %s(2 pi %d/%d) expected %s got %r" % (m, idx, kind, e, 4 * m, mpmath.nstr(exact, 20), float(real[idx])))
+                drift.append(tb.get("layout", "reim") + (" inverse" if tb.get("inverse") else "") + " m=%d entry %d: %s(2 pi %d/%d) expected %s got %r" % (m, idx, kind, e, 4 * m, mpmath.nstr(exact, 20), float(real[idx])))
                 if len(drift) > 10:
                     break
     rec.data["drift"] = drift
@@ -263,7 +263,9 @@ def run(chk, replay=None):
         r = run_tlc("FftSchedule", cfg, workers=9, xmx="16g", name="c06-" + cfg, timeout=1800)
         tlc_must_pass(r, cfg)
         chk.add_tlc(r, "symbolic schedule = evaluation map: " + role)
-    for cfg, role in (("FftInverse.cfg", "m = 1..64, breadth-first regime"), ("FftInverse_rec.cfg", "m = 64 with recursion threshold 32")):
+    for cfg, role in (("FftInverse.cfg", "reim layout, m = 1..64, breadth-first regime"), ("FftInverse_rec.cfg", "reim layout, m = 64 with recursion threshold 32"),
+                      ("FftInverse_cplx.cfg", "cplx layout (radix-2 level right after the leaves), m = 1..64"),
+                      ("FftInverse_cplx_rec.cfg", "cplx layout, m = 64 with recursion threshold 32")):
         r = run_tlc("FftInverse", cfg, workers=7, xmx="24g", name="c06-" + cfg, timeout=1800)
         tlc_must_pass(r, cfg)
         chk.add_tlc(r, "symbolic inverse schedule after the forward map = m * identity: " + role)
@@ -273,6 +275,12 @@ def run(chk, replay=None):
     r = run_tlc("FftSchedule", "FftSchedule_cplx_gen.cfg", workers=1, xmx="8g", name="c06-gen-cplx", timeout=900)
     tlc_must_pass(r, "FftSchedule cplx gen")
     tabs += printed_json(r, "TABLE")
+    for cfg in ("FftInverse_reim_gen.cfg", "FftInverse_cplx_gen.cfg"):
+        r = run_tlc("FftInverse", cfg, workers=1, xmx="8g", name="c06-" + cfg, timeout=900)
+        tlc_must_pass(r, cfg)
+        for tb in printed_json(r, "ITABLE"):
+            tb["inverse"] = True
+            tabs.append(tb)
     ms = [1 << s for s in range(0, 13)] + [65536] if quick else [1 << s for s in range(0, 17)]
     jobs = [("FFT probes m=%s" % ms[i::7], drive, (ms[i::7], quick)) for i in range(7)] + [("table binding", drive_tables, (tabs,))]
     res = isolated_many(chk, jobs, timeout=3000, nproc=8)
